@@ -108,36 +108,49 @@ type c20BRCfg struct {
 	w               int
 	bitsLWE         []int
 	hw              int
+	noTie           bool // probes only (ring degrees too large for the interpreted model)
 }
 
 func c20BRConfigs(c *Ctx) (out []c20BRCfg) {
 	// rlwe.MinLogN = 4: the smallest LWE ring has degree 16
 	if !c.Thorough() {
 		return []c20BRCfg{
-			{4, 4, []int{27}, []int{40}, 7, []int{14}, 2},
-			{5, 4, []int{27}, []int{40}, 7, []int{14}, 5},
-			{4, 4, []int{30}, []int{41}, 0, []int{14}, 3},
-			{4, 4, []int{27}, nil, 7, []int{14}, 2}, // the shape of blindrot_test.go: no auxiliary modulus
-			{4, 4, []int{28, 30}, []int{40, 41}, 0, []int{13}, 1},
+			{4, 4, []int{27}, []int{40}, 7, []int{14}, 2, false},
+			{5, 4, []int{27}, []int{40}, 7, []int{14}, 5, false},
+			{4, 4, []int{30}, []int{41}, 0, []int{14}, 3, false},
+			{4, 4, []int{27}, nil, 7, []int{14}, 2, false}, // the shape of blindrot_test.go: no auxiliary modulus
+			{4, 4, []int{28, 30}, []int{40, 41}, 0, []int{13}, 1, false},
+			// large LWE moduli: q*2N_BR >= 2^64 (the modulus switch must not be done on 64-bit words), multi-limb
+			{4, 4, []int{27}, []int{40}, 7, []int{61}, 3, false},
+			{4, 4, []int{27}, []int{40}, 7, []int{31, 32}, 2, false},
+			{10, 4, []int{27}, []int{40}, 7, []int{55}, 2, true},
 		}
 	}
-	for _, hw := range []int{0, 1, 2, 4, 8, 16} {
-		out = append(out, c20BRCfg{4, 4, []int{27}, []int{40}, 7, []int{14}, hw})
-	}
-	for _, hw := range []int{1, 3, 16} {
-		out = append(out, c20BRCfg{5, 4, []int{30}, []int{41}, 0, []int{14}, hw})
-	}
-	for _, w := range []int{4, 12, 16, 20} {
-		out = append(out, c20BRCfg{4, 4, []int{30}, []int{42}, w, []int{14}, 3})
+	for _, bl := range [][]int{{50}, {55}, {58}, {59}, {60}, {61}, {30, 31}, {45, 40}, {60, 61}, {20, 21, 22}} {
+		out = append(out, c20BRCfg{4, 4, []int{27}, []int{40}, 7, bl, 3, false})
 	}
 	out = append(out,
-		c20BRCfg{4, 4, []int{27}, nil, 7, []int{14}, 2},
-		c20BRCfg{4, 4, []int{27}, nil, 0, []int{14}, 2},
-		c20BRCfg{4, 4, []int{30, 31}, nil, 12, []int{14}, 2},
-		c20BRCfg{4, 4, []int{28, 30}, []int{40, 41}, 0, []int{13}, 2},
-		c20BRCfg{5, 4, []int{27}, []int{40}, 7, []int{14, 15}, 4},
-		c20BRCfg{5, 5, []int{29, 33}, []int{41}, 12, []int{16}, 6},
-		c20BRCfg{6, 4, []int{27}, []int{40}, 7, []int{14}, 5},
+		c20BRCfg{10, 4, []int{27}, []int{40}, 7, []int{55}, 2, true},
+		c20BRCfg{10, 5, []int{27}, []int{40}, 7, []int{53}, 4, true},
+		c20BRCfg{9, 4, []int{27}, []int{40}, 7, []int{54, 55}, 3, true},
+	)
+	for _, hw := range []int{0, 1, 2, 4, 8, 16} {
+		out = append(out, c20BRCfg{4, 4, []int{27}, []int{40}, 7, []int{14}, hw, false})
+	}
+	for _, hw := range []int{1, 3, 16} {
+		out = append(out, c20BRCfg{5, 4, []int{30}, []int{41}, 0, []int{14}, hw, false})
+	}
+	for _, w := range []int{4, 12, 16, 20} {
+		out = append(out, c20BRCfg{4, 4, []int{30}, []int{42}, w, []int{14}, 3, false})
+	}
+	out = append(out,
+		c20BRCfg{4, 4, []int{27}, nil, 7, []int{14}, 2, false},
+		c20BRCfg{4, 4, []int{27}, nil, 0, []int{14}, 2, false},
+		c20BRCfg{4, 4, []int{30, 31}, nil, 12, []int{14}, 2, false},
+		c20BRCfg{4, 4, []int{28, 30}, []int{40, 41}, 0, []int{13}, 2, false},
+		c20BRCfg{5, 4, []int{27}, []int{40}, 7, []int{14, 15}, 4, false},
+		c20BRCfg{5, 5, []int{29, 33}, []int{41}, 12, []int{16}, 6, false},
+		c20BRCfg{6, 4, []int{27}, []int{40}, 7, []int{14}, 5, false},
 	)
 	return
 }
@@ -226,6 +239,9 @@ func c20GenBlindRot(c *Ctx) {
 		tw := psBR.twinFromKey(keys[0])
 		par := c20ParTokens(psBR, lq, lp, w)
 		for i, k := range BRK.BlindRotationKeys {
+			if cfg.noTie {
+				break
+			}
 			A0, A1, E0, E1 := tw.replayRGSW(lq, lp, c20Shape(k), true)
 			g := make([]int64, N)
 			switch sL[i] {
@@ -345,7 +361,7 @@ func c20GenBlindRot(c *Ctx) {
 		for k := -N / 2; k <= N/2; k++ {
 			grid = append(grid, k)
 		}
-		if !c.Thorough() {
+		if !c.Thorough() || cfg.noTie {
 			// a sample that keeps the end points and the sign change
 			g2 := []int{-N / 2, -N/2 + 1, -1, 0, 1, N/2 - 1, N / 2}
 			for len(g2) < NL {
@@ -360,7 +376,7 @@ func c20GenBlindRot(c *Ctx) {
 				ks[i] = grid[(start+i)%len(grid)]
 			}
 			for fi, t := range tps {
-				if !c.Thorough() && (call+fi+ci)%2 == 1 && ci != 0 {
+				if (!c.Thorough() || cfg.noTie) && (call+fi+ci)%2 == 1 && ci != 0 {
 					continue
 				}
 				// LWE sample: phase_i = k_i * Q/(2N) + e_i
@@ -500,7 +516,9 @@ func c20BREvaluate(c *Ctx, psBR, psL *c20PS, evalBR *blindrot.Evaluator, BRK bli
 		}
 	}
 	lweArgs := fmt.Sprintf("n=%d ql=%s nl=%d c0=%s c1=%s idx=%s", N, Vec(psL.Q), NL, Mat(inRows[0]), Mat(inRows[1]), IVec(idxs))
-	c.Emit("br_sched "+lweArgs, strings.Join(logOut, "|"))
+	if !cfg.noTie {
+		c.Emit("br_sched "+lweArgs, strings.Join(logOut, "|"))
+	}
 
 	// ---- brk_keys_exact: every request is served by a generated key ----
 	cfgName := fmt.Sprintf("N=%d", N)
@@ -537,7 +555,7 @@ func c20BREvaluate(c *Ctx, psBR, psL *c20PS, evalBR *blindrot.Evaluator, BRK bli
 
 	// ---- exact tie of the outputs ----
 	par := c20ParTokens(psBR, lq, lp, w)
-	if !probesOnly() {
+	if !probesOnly() && !cfg.noTie {
 		var sb strings.Builder
 		fmt.Fprintf(&sb, "br_eval %s %s f=%s", par, lweArgs, Mat(Frows))
 		evk, _ := BRK.GetEvaluationKeySet()
